@@ -6,7 +6,7 @@ from typing import Dict, List, Optional, Set, Tuple
 
 from ..model import Repo, ClassInfo, FunctionInfo, AnalysisError, walk_no_nested, src, is_self_attr, \
     self_attrs_in, call_name, dotted, const_str
-from ..core import Ob, Rule, Mutant, mutate_module, find_def, replace_node
+from ..core import Ob, Rule, Mutant, mutate_module, find_def, replace_node, inconclusive
 from ..dataflow import Defs
 from ..astq import MiniEval, Unsupported, MISSING, flatten, norm, inline_locals, return_exprs, strip_docstring, run_all_choices
 from ..cfg import cfg_of
@@ -385,8 +385,12 @@ def rule_d1(repo: Repo) -> List[Ob]:
         ar_m = cls.methods.get("to_arithm")
         if ev_m is None or ar_m is None:
             raise AnalysisError(f"D1: {cname} lacks evaluate/to_arithm")
-        ev_rows = _tabulate(cls, ev_m, children, (False, True), "evaluate")
-        ar_rows = _tabulate(cls, ar_m, children, (0, 1), "to_arithm")
+        try:
+            ev_rows = _tabulate(cls, ev_m, children, (False, True), "evaluate")
+            ar_rows = _tabulate(cls, ar_m, children, (0, 1), "to_arithm")
+        except AnalysisError as e:
+            obs.append(inconclusive("D1-truthtable", f"{cls.relpath}::{cname}::table", cls.relpath, ev_m.node.lineno, cname, str(e)))
+            continue
         for vals, rs in sorted(ev_rows.items()):
             want = bool(sem(*vals))
             badr = [x for x in rs if not (isinstance(x, (bool, int)) and bool(x) == want)]
@@ -528,14 +532,49 @@ def _operator_table(fn: FunctionInfo) -> Dict[str, Tuple[str, bool, int]]:
                 raise AnalysisError(f"D2: operands of `{src(comp)}` in {fn.key} do not derive from ({left_p}, {right_p})")
             table[lit] = (CMP[type(comp.ops[0])], in_order, n.lineno)
         elif isinstance(n, ast.Dict):
-            for k, v in zip(n.keys, n.values):
-                lit = const_str(k)
-                if lit is None:
-                    continue
-                d = dotted(v)
-                if d and d.split(".")[-1] in OPERATOR_MODULE:
-                    table[lit] = (OPERATOR_MODULE[d.split(".")[-1]], True, n.lineno)
+            _dict_table(n, table)
+    if not table:
+        # a module-level dict {"<=": operator.le, ...} used by the function or by a helper it calls
+        names = {x.id for x in ast.walk(fn.node) if isinstance(x, ast.Name)}
+        for g in repo_functions_of(fn):
+            if g.name in names and g.cls is None:
+                names |= {x.id for x in ast.walk(g.node) if isinstance(x, ast.Name)}
+        for st in fn.module.tree.body:
+            if isinstance(st, (ast.Assign, ast.AnnAssign)) and isinstance(getattr(st, "value", None), ast.Dict):
+                tgts = st.targets if isinstance(st, ast.Assign) else [st.target]
+                if any(isinstance(t, ast.Name) and t.id in names for t in tgts):
+                    _dict_table(st.value, table)
+        if table:
+            # operands must be passed in order (value side first)
+            calls = [c for c in ast.walk(fn.node) if isinstance(c, ast.Call) and len(c.args) == 2 and not isinstance(c.func, ast.Name)]
+            for c in calls:
+                lr, rr = defs.roots(c.args[0]), defs.roots(c.args[1])
+                if ("param:" + right_p) in lr and ("param:" + left_p) in rr and not (("param:" + left_p) in lr):
+                    table = {k: (op, False, line) for k, (op, _, line) in table.items()}
     return table
+
+
+_REPO_FOR_TABLE = [None]
+
+
+def repo_functions_of(fn: FunctionInfo):
+    r = _REPO_FOR_TABLE[0]
+    return [g for g in r.functions if g.module is fn.module] if r is not None else []
+
+
+def _dict_table(n: ast.Dict, table):
+    for k, v in zip(n.keys, n.values):
+        lit = const_str(k)
+        if lit is None:
+            continue
+        d = dotted(v)
+        if d and d.split(".")[-1] in OPERATOR_MODULE:
+            table[lit] = (OPERATOR_MODULE[d.split(".")[-1]], True, n.lineno)
+        elif isinstance(v, ast.Lambda) and isinstance(v.body, ast.Compare) and len(v.body.ops) == 1 and type(v.body.ops[0]) in CMP and len(v.args.args) == 2:
+            a0, a1 = v.args.args[0].arg, v.args.args[1].arg
+            l, r_ = v.body.left, v.body.comparators[0]
+            if isinstance(l, ast.Name) and isinstance(r_, ast.Name):
+                table[lit] = (CMP[type(v.body.ops[0])], l.id == a0 and r_.id == a1, n.lineno)
 
 
 FLIP = {"<": ">", ">": "<", "<=": ">=", ">=": "<=", "==": "==", "!=": "!="}
@@ -556,11 +595,17 @@ def rule_d2(repo: Repo) -> List[Ob]:
             raise AnalysisError(f"D2: terminal {a} not found")
         lits[a] = m.group(1)
     tables = {}
+    _REPO_FOR_TABLE[0] = repo
     for qn in ("get_valid_values", "evaluate_cop"):
         fn = repo.function("utils/conditions.py", qn)
-        t = _operator_table(fn)
+        try:
+            t = _operator_table(fn)
+        except AnalysisError as e:
+            t = {}
         if len(t) < 3:
-            raise AnalysisError(f"D2: operator table of {qn} has only {len(t)} entries")
+            obs.append(inconclusive("D2-operators", f"utils/conditions.py::{qn}::table", fn.relpath, fn.node.lineno, fn.qualname,
+                                    f"operator dispatch of {qn} not recognised (if-chain on the operator string or a dict of operator functions expected)"))
+            continue
         tables[qn] = (fn, t)
         for lit, (op, in_order, line) in sorted(t.items()):
             eff = op if in_order else FLIP[op]
@@ -570,7 +615,8 @@ def rule_d2(repo: Repo) -> List[Ob]:
                           f"source operator {lit!r} is evaluated as `value {eff} bound`" + ("" if ok else f" (expected {want})")))
         # unhandled operators must reach a raise
         c = cfg_of(fn.node)
-        ends_in_raise = any(isinstance(n.ast, ast.Raise) and c.reachable_from_entry(n) for n in c.nodes if n.kind == "stmt")
+        ends_in_raise = any(isinstance(n.ast, ast.Raise) and c.reachable_from_entry(n) for n in c.nodes if n.kind == "stmt") or \
+            any(isinstance(x, ast.Raise) for g in repo_functions_of(fn) if g.name in {y.id for y in ast.walk(fn.node) if isinstance(y, ast.Name)} for x in ast.walk(g.node))
         falls_through = any(p.kind != "stmt" or not isinstance(p.ast, ast.Return) for p in c.preds(c.exit))
         for a, lit in sorted(lits.items()):
             if lit in t:
@@ -578,6 +624,8 @@ def rule_d2(repo: Repo) -> List[Ob]:
             ok = ends_in_raise and not falls_through
             obs.append(Ob("D2-operators", f"utils/conditions.py::{qn}::unhandled::{lit}", fn.relpath, fn.node.lineno, fn.qualname, ok,
                           f"grammar operator {lit!r} is not handled by {qn} and " + ("is refused by the final raise" if ok else "can fall through without an error")))
+    if len(tables) < 2:
+        return obs
     a, b = tables["get_valid_values"][1], tables["evaluate_cop"][1]
     same = set(a) == set(b)
     fn = tables["evaluate_cop"][0]
@@ -656,6 +704,7 @@ def rule_implied(repo: Repo) -> List[Ob]:
         children = _child_fields(repo, cls)
         bad = None
         rows = 0
+        unsupported = None
         for mark in (False, True):
             for vals in itertools.product((False, True), repeat=len(children)):
                 env = dict(zip(children, vals))
@@ -668,9 +717,10 @@ def rule_implied(repo: Repo) -> List[Ob]:
                         return env[e.func.value.attr]
                     return MISSING
                 try:
-                    r = bool(MiniEval(cb).run(strip_docstring(m.node.body)))
-                except Unsupported as u:
-                    raise AnalysisError(f"implied-spec: cannot tabulate {m.key}: {u}")
+                    outs = run_all_choices(lambda ch, cb=cb: MiniEval(cb, ch), strip_docstring(m.node.body))
+                except Exception as u:
+                    unsupported = str(u)
+                    continue
                 rows += 1
                 if cls.name == "TrueCond":
                     sound_max = True
@@ -680,12 +730,18 @@ def rule_implied(repo: Repo) -> List[Ob]:
                     sound_max = mark or any(vals)
                 else:
                     sound_max = mark
-                if r and not sound_max:
-                    bad = (mark, vals, r)
-                if cls.name == "TrueCond" and not r:
-                    bad = (mark, vals, r)
-                if mark and not r and cls.name != "TrueCond":
-                    bad = (mark, vals, r)  # the marked guard itself must be recognised
+                for _, r in outs:
+                    r = bool(r)
+                    if r and not sound_max:
+                        bad = (mark, vals, r)
+                    if cls.name == "TrueCond" and not r:
+                        bad = (mark, vals, r)
+                    if mark and not r and cls.name != "TrueCond":
+                        bad = (mark, vals, r)  # the marked guard itself must be recognised
+        if bad is None and (rows == 0 or unsupported):
+            obs.append(inconclusive("A4-implied-spec", f"{cls.relpath}::{cls.name}.is_implied_by_loop_guard", cls.relpath, m.node.lineno, m.qualname,
+                                    f"body not tabulable ({unsupported})"))
+            continue
         ok = bad is None
         obs.append(Ob("A4-implied-spec", f"{cls.relpath}::{cls.name}.is_implied_by_loop_guard", cls.relpath, m.node.lineno, m.qualname, ok,
                       f"{rows} rows: answer is True only when marked" + (" / all children implied" if cls.name == "And" else " / some child implied" if cls.name == "Or" else "")
@@ -740,12 +796,14 @@ def rule_a4_moment(repo: Repo) -> List[Ob]:
             continue
         p = m.params()
         if len(p) < 5:
-            raise AnalysisError(f"{m.key}: unexpected signature {p}")
+            obs.append(inconclusive("A4-moment-shape", f"{cls.relpath}::{cls.name}.get_moment::shape", cls.relpath, m.node.lineno, m.qualname, f"unexpected signature {p}"))
+            continue
         selfn, k, _ctx, cond, rest = p[:5]
         defs = Defs(m.node, selfn)
         rets = return_exprs(m.node)
         if len(rets) != 1:
-            raise AnalysisError(f"{m.key}: expected a single return")
+            obs.append(inconclusive("A4-moment-shape", f"{cls.relpath}::{cls.name}.get_moment::shape", cls.relpath, m.node.lineno, m.qualname, f"{len(rets)} return statements"))
+            continue
         terms = flatten(rets[0], ast.Add)
         summands: List[Tuple[str, ast.AST]] = []
         for t in terms:
